@@ -92,6 +92,7 @@ func execR(c caseR) (overlap bool, err error) {
 	}
 	hasPrepared := len(ups) > 0
 	firstVid := map[int]string{}
+	firstOK := map[int]bool{} // put2: the first of the two writes was acknowledged (it may have replaced another upload even if the second failed)
 	s := sched.New(len(c.Ops))
 	s.Filter = func(_ int, point string, args []string) bool {
 		// steps on the bucket itself and on the keys of the race; not the per-request reads of bucket settings
@@ -134,6 +135,7 @@ func execR(c caseR) (overlap bool, err error) {
 			r, err = cl.Call("PUT", path, nil, nil, body(i+100))
 			if err == nil && r.OK() {
 				firstVid[i] = r.Header.Get("x-amz-version-id")
+				firstOK[i] = true
 				r, err = cl.Call("PUT", path, nil, nil, body(i))
 			}
 		case "mpucreate":
@@ -210,7 +212,7 @@ func execR(c caseR) (overlap bool, err error) {
 			// another acknowledged upload of the same key may have replaced it
 			replaced := false
 			for j, p := range c.Ops {
-				if j != i && (p.Kind == "put" || p.Kind == "put2" || p.Kind == "mpucomplete") && p.Key%len(raceKeys) == o.Key%len(raceKeys) && resp[j].OK() {
+				if j != i && (p.Kind == "put" || p.Kind == "put2" || p.Kind == "mpucomplete") && p.Key%len(raceKeys) == o.Key%len(raceKeys) && (resp[j].OK() || firstOK[j]) {
 					replaced = true
 				}
 			}
